@@ -1040,7 +1040,6 @@ func RunSliceExpr(ctx *Task, expr *ast.SliceExpr) (any, ast.DType, *errchain.PlE
 			return nil, ast.Invalid, err
 		}
 	}
-	var startInt, endInt, stepInt int
 	var length int
 	switch objT { //nolint:exhaustive
 	case ast.String:
@@ -1051,6 +1050,7 @@ func RunSliceExpr(ctx *Task, expr *ast.SliceExpr) (any, ast.DType, *errchain.PlE
 		return nil, ast.Invalid, NewRunError(ctx, "invalid obj type", expr.Obj.StartPos())
 	}
 
+	stepInt := 1
 	if step != nil {
 		if stepT != ast.Int {
 			return nil, ast.Invalid, NewRunError(ctx, "step type must be integer", expr.Step.StartPos())
@@ -1059,22 +1059,14 @@ func RunSliceExpr(ctx *Task, expr *ast.SliceExpr) (any, ast.DType, *errchain.PlE
 		if stepInt == 0 {
 			return nil, ast.Invalid, NewRunError(ctx, "step must be non-zero", expr.Step.StartPos())
 		}
-	} else {
-		stepInt = 1
 	}
 
+	var startInt, endInt int
 	if start != nil {
 		if startT != ast.Int {
 			return nil, ast.Invalid, NewRunError(ctx, "start type must be integer", expr.Start.StartPos())
 		}
 		startInt = cast.ToInt(start)
-		if startInt < 0 {
-			startInt = length + startInt
-		}
-	} else if stepInt > 0 {
-		startInt = 0
-	} else {
-		startInt = length - 1
 	}
 
 	if end != nil {
@@ -1082,66 +1074,103 @@ func RunSliceExpr(ctx *Task, expr *ast.SliceExpr) (any, ast.DType, *errchain.PlE
 			return nil, ast.Invalid, NewRunError(ctx, "end type must be integer", expr.End.StartPos())
 		}
 		endInt = cast.ToInt(end)
-		if endInt < 0 {
-			endInt = length + endInt
-		}
-	} else if stepInt > 0 {
-		endInt = length
-	} else {
-		endInt = -1
 	}
+
+	startInt, endInt, stepInt = sliceBounds(length, startInt, endInt, stepInt, start != nil, end != nil)
 
 	switch objT {
 	case ast.String:
 		str := obj.(string)
+		result := make([]byte, 0, sliceCount(startInt, endInt, stepInt))
 		if stepInt > 0 {
-			result := ""
-			if startInt < 0 {
-				startInt = 0
+			for i := startInt; i < endInt; i += stepInt {
+				result = append(result, str[i])
 			}
-			for i := startInt; i < endInt && i < length; i += stepInt {
-				result += string(str[i])
-			}
-			return result, ast.String, nil
 		} else {
-			result := ""
-			if startInt > length-1 {
-				startInt = length - 1
+			for i := startInt; i > endInt; i += stepInt {
+				result = append(result, str[i])
 			}
-			for i := startInt; i > endInt && i >= 0; i += stepInt {
-				result += string(str[i])
-			}
-			return result, ast.String, nil
 		}
+		return string(result), ast.String, nil
 	default:
 		list := obj.([]any)
+		result := make([]any, 0, sliceCount(startInt, endInt, stepInt))
 		if stepInt > 0 {
-			if startInt < 0 {
-				startInt = 0
-			}
-			if endInt > length {
-				endInt = length
-			}
-			result := make([]any, 0, (endInt-startInt+stepInt-1)/stepInt)
 			for i := startInt; i < endInt; i += stepInt {
 				result = append(result, list[i])
 			}
-			return result, ast.List, nil
 		} else {
-			if startInt > length-1 {
-				startInt = length - 1
-			}
-			if endInt < 0 {
-				endInt = -1
-			}
-			result := make([]any, 0, (startInt-endInt-stepInt-1)/(-stepInt))
 			for i := startInt; i > endInt; i += stepInt {
 				result = append(result, list[i])
 			}
-			return result, ast.List, nil
 		}
+		return result, ast.List, nil
 	}
 }
+
+// sliceBounds normalizes slice bounds the way Python does: negative bounds
+// count from the end, out-of-range bounds are clamped, omitted bounds select
+// the whole sequence in the direction of step. The step is clamped to
+// +-(length+1), which selects the same elements and keeps i += step from
+// overflowing.
+func sliceBounds(length, start, end, step int, hasStart, hasEnd bool) (int, int, int) {
+	lo, hi := 0, length
+	if step < 0 {
+		lo, hi = -1, length-1
+	}
+	norm := func(v int) int {
+		if v < 0 {
+			v += length
+			if v < lo {
+				v = lo
+			}
+		} else if v > hi {
+			v = hi
+		}
+		return v
+	}
+	if step > length+1 {
+		step = length + 1
+	} else if step < -length-1 {
+		step = -length - 1
+	}
+	if step > 0 {
+		if hasStart {
+			start = norm(start)
+		} else {
+			start = lo
+		}
+		if hasEnd {
+			end = norm(end)
+		} else {
+			end = hi
+		}
+	} else {
+		if hasStart {
+			start = norm(start)
+		} else {
+			start = hi
+		}
+		if hasEnd {
+			end = norm(end)
+		} else {
+			end = lo
+		}
+	}
+	return start, end, step
+}
+
+// sliceCount returns the number of elements selected by normalized bounds.
+func sliceCount(start, end, step int) int {
+	if step > 0 && start < end {
+		return (end-start-1)/step + 1
+	}
+	if step < 0 && start > end {
+		return (start-end-1)/(-step) + 1
+	}
+	return 0
+}
+
 func typePromotion(l ast.DType, r ast.DType) ast.DType {
 	if l == ast.Float || r == ast.Float {
 		return ast.Float
